@@ -5,6 +5,7 @@ import Autog.Lemmas.NsInitLayersKahn
 import Autog.Lemmas.ComponentsDfs
 import Autog.Lemmas.HasCyclesTotal
 import Autog.Lemmas.LongestPathTotal
+import Autog.Lemmas.DfsBreakerTotal
 /-! # C01 — Layout always returns
 
     PARTIAL. In the composed model `layoutModel` (Autog/Model/Pipeline.lean) every explicit `panic` of the modelled code, every
@@ -83,6 +84,9 @@ theorem C01_layers_total (g : G) (h : ∀ n ∈ g.nodeIds, 0 ≤ g.layerOf n) : 
 theorem C01_cycle_test_total : type_of% @hasCycles_total := @hasCycles_total
 /-- the longest-path traversal returns on every well-formed acyclic state -/
 theorem C01_longestpath_total : type_of% @heights_total := @heights_total
+
+/-- the depth-first breaker returns on every well-formed state -/
+theorem C01_dfs_breaker_total : type_of% @dfsMarked_total := @dfsMarked_total
 
 theorem C01_cycle_machine_never_out_of_fuel : type_of% @DfsHasCyclesSound.run_no_fuelOut := @DfsHasCyclesSound.run_no_fuelOut
 
